@@ -171,7 +171,7 @@ def build(spec, perm=None, slots=None, strpool=None):
 
 def _build_pooled(spec, perm, slots, strpool):
     k = spec[0]
-    if k in "sy":
+    if k in "sy" or (k == "Z" and spec[1] in ("bytes", "zeros", "str")):
         v = build(spec)
         return strpool.setdefault((k, v), v)
     if k in "LT":
